@@ -125,6 +125,165 @@ func c32tail(r *rand.Rand) []byte {
 	return t
 }
 
+// encoders by width and selector (every index type of inter/idx, and the raw codec)
+func c32encSel(k int, sel uint64, v uint64) []byte {
+	switch k {
+	case 2:
+		return bigendian.Uint16ToBytes(uint16(v))
+	case 4:
+		switch sel % 7 {
+		case 0:
+			return idx.Epoch(v).Bytes()
+		case 1:
+			return idx.Event(v).Bytes()
+		case 2:
+			return idx.Lamport(v).Bytes()
+		case 3:
+			return idx.Frame(v).Bytes()
+		case 4:
+			return idx.Pack(v).Bytes()
+		case 5:
+			return idx.ValidatorID(v).Bytes()
+		}
+		return bigendian.Uint32ToBytes(uint32(v))
+	default:
+		if sel%2 == 0 {
+			return idx.Block(v).Bytes()
+		}
+		return bigendian.Uint64ToBytes(v)
+	}
+}
+
+// ENCHIST: the caller keeps every returned slice (the slice itself, not a copy) and mutates it
+func c32History(in []string) []string {
+	pu := func(s string) uint64 { v, _ := strconv.ParseUint(s, 10, 64); return v }
+	var held [][]byte
+	var out []string
+	var op []string
+	flush := func() {
+		if len(op) == 0 {
+			return
+		}
+		switch op[0] {
+		case "E":
+			b := c32encSel(int(pu(op[1])), pu(op[2]), pu(op[3]))
+			out = append(out, vu.Hex(b)) // rendered now: the encoding at the time of return
+			held = append(held, b)
+		case "L":
+			var b []byte
+			switch pu(op[1]) {
+			case 2:
+				b = littleendian.Uint16ToBytes(uint16(pu(op[2])))
+			case 4:
+				b = littleendian.Uint32ToBytes(uint32(pu(op[2])))
+			default:
+				b = littleendian.Uint64ToBytes(pu(op[2]))
+			}
+			out = append(out, vu.Hex(b))
+			held = append(held, b)
+		case "A":
+			if i := int(pu(op[1])); i < len(held) {
+				held[i] = append(held[i], vu.UnHex(op[2])...)
+			}
+			out = append(out, "-")
+		case "W":
+			if i, p := int(pu(op[1])), int(pu(op[2])); i < len(held) && p < len(held[i]) {
+				held[i][p] = byte(pu(op[3]))
+			}
+			out = append(out, "-")
+		case "X": // key composition: append(held[i], enc(v)...)
+			e := c32encSel(int(pu(op[2])), pu(op[3]), pu(op[4]))
+			out = append(out, vu.Hex(e))
+			if i := int(pu(op[1])); i < len(held) {
+				held[i] = append(held[i], e...)
+			}
+			held = append(held, e)
+		case "D":
+			k, i := int(pu(op[1])), int(pu(op[2]))
+			if i >= len(held) || len(held[i]) < k {
+				out = append(out, "short")
+			} else {
+				switch k {
+				case 2:
+					out = append(out, vu.U64(uint64(bigendian.BytesToUint16(held[i]))))
+				case 4:
+					out = append(out, vu.U64(uint64(bigendian.BytesToUint32(held[i]))))
+				default:
+					out = append(out, vu.U64(bigendian.BytesToUint64(held[i])))
+				}
+			}
+		}
+		vu.Stat("hist_op_" + op[0])
+		op = nil
+	}
+	for _, t := range in[1:] {
+		if t == ";" {
+			flush()
+		} else {
+			op = append(op, t)
+		}
+	}
+	flush()
+	vu.Stat("enchist")
+	return out
+}
+
+func c32GenHistory(r *rand.Rand, emit func(...string)) {
+	ks := []int{2, 4, 4, 4, 8}
+	val := func() uint64 {
+		switch r.Intn(5) {
+		case 0:
+			return []uint64{0, 1, 2, 254, 255, 256, 257, 65535, 65536}[r.Intn(9)]
+		case 1, 2:
+			return uint64(r.Intn(256))
+		case 3:
+			return uint64(r.Intn(70000))
+		default:
+			return uint64(r.Uint32())
+		}
+	}
+	in := []string{"ENCHIST"}
+	add := func(t ...string) { in = append(append(in, ";"), t...) }
+	held := 0
+	for step, n := 0, 2+r.Intn(4); step < n; step++ {
+		k := ks[r.Intn(len(ks))]
+		sel := strconv.Itoa(r.Intn(7))
+		v := val()
+		mask := uint64(1)<<(8*uint(k)-1)<<1 - 1
+		v &= mask
+		add("E", strconv.Itoa(k), sel, vu.U64(v))
+		me := held
+		held++
+		switch r.Intn(5) { // what the caller does with the slice it got
+		case 0:
+			add("A", strconv.Itoa(me), vu.Hex([]byte{byte(r.Intn(256)), byte(r.Intn(256)), byte(r.Intn(256)), 9}[:1+r.Intn(4)]))
+		case 1:
+			add("W", strconv.Itoa(me), strconv.Itoa(r.Intn(k)), strconv.Itoa(r.Intn(256)))
+		case 2, 3:
+			add("X", strconv.Itoa(me), strconv.Itoa(k), strconv.Itoa(r.Intn(7)), vu.U64(val()&mask))
+			held++
+			if r.Intn(2) == 0 {
+				add("W", strconv.Itoa(me), strconv.Itoa(r.Intn(2*k)), strconv.Itoa(r.Intn(256)))
+			}
+		}
+		// encode the value and its neighbours again, through possibly other index types
+		for _, w := range []uint64{v, (v + 1) & mask, (v - 1) & mask} {
+			if r.Intn(4) != 0 {
+				add("E", strconv.Itoa(k), strconv.Itoa(r.Intn(7)), vu.U64(w))
+				held++
+			}
+		}
+		if r.Intn(3) == 0 {
+			add("D", strconv.Itoa(k), strconv.Itoa(r.Intn(held)))
+		}
+		if r.Intn(6) == 0 {
+			add("L", strconv.Itoa(k), vu.U64(v))
+			held++
+		}
+	}
+	emit(in...)
+}
+
 func pu2(s string) uint64 { v, _ := strconv.ParseUint(s, 10, 64); return v }
 
 func init() {
@@ -247,6 +406,12 @@ func init() {
 					emit("IDCMP", vu.U64(e1), vu.U64(l1), vu.Hex(t1), vu.U64(e2), vu.U64(l2), vu.Hex(t2))
 				}
 			}
+			// histories with caller-side mutation of returned encodings; emitted last, so that a shared
+			// buffer corrupted by such a history cannot disturb the plain cases above
+			emit("ENCHIST", ";", "E", "4", "0", "5", ";", "X", "0", "4", "2", "9", ";", "E", "4", "0", "6", ";", "E", "4", "6", "5")
+			for i := 0; i < n/5+20; i++ {
+				c32GenHistory(r, emit)
+			}
 		},
 		Run: func(in []string) []string {
 			pu := func(s string) uint64 { v, _ := strconv.ParseUint(s, 10, 64); return v }
@@ -263,6 +428,8 @@ func init() {
 				return me.ID()
 			}
 			switch in[0] {
+			case "ENCHIST":
+				return c32History(in)
 			case "IDSEQ":
 				me := &dag.MutableBaseEvent{}
 				var out []string
